@@ -153,6 +153,7 @@ func loadProgram(repo, hdir string, extraPkgs []string) (*Engine, error) {
 	e.redirects["github.com/google/gopacket.FoldChecksum"] = verifPkg + ".ModelFoldChecksum"
 	e.redirects["github.com/google/gopacket/layers.tcpipChecksum"] = verifPkg + ".ModelTcpipChecksum"
 	e.redirects["github.com/google/gopacket/layers.checksum"] = verifPkg + ".ModelIPv4Checksum"
+	e.redirects["(*net/http.Client).Do"] = modPath + "/publicip.vClientDo"
 	e.redirects["context.Background"] = verifPkg + ".CtxBackground"
 	e.redirects["context.TODO"] = verifPkg + ".CtxBackground"
 	e.redirects["context.WithCancel"] = verifPkg + ".CtxWithCancel"
